@@ -216,6 +216,43 @@ func genShapes(repo string) {
 	b.WriteString("def referAttempts : List String := " + leanStrList(attempts) + "\n")
 	b.WriteString("def referLiterals : List String := " + leanStrList(lits) + "\n\n")
 	b.WriteString("/-- calcMatchStrScore: the numeric literals in source order -/\n")
-	b.WriteString("def scoreConsts : List String := " + leanStrList(consts) + "\n\nend LuaHelper.Gen\n")
+	b.WriteString("def scoreConsts : List String := " + leanStrList(consts) + "\n\n")
+	// FindMinScope: the guard at the top and, for every `if` directly in the body of the loop over SubScopes,
+	// its condition and what its body does (continue / break / recurse+break / other)
+	var minScope []string
+	sp := parseDir(filepath.Join(repo, "langserver/check/common"))
+	if fd := sp.funcDecl("FindMinScope"); fd != nil {
+		for _, st := range fd.Body.List {
+			switch x := st.(type) {
+			case *ast.IfStmt:
+				minScope = append(minScope, "guard:"+exprText(x.Cond))
+			case *ast.RangeStmt:
+				minScope = append(minScope, "range:"+exprText(x.X))
+				for _, bs := range x.Body.List {
+					is, ok := bs.(*ast.IfStmt)
+					if !ok {
+						minScope = append(minScope, "stmt:"+exprText(bs))
+						continue
+					}
+					var acts []string
+					for _, a := range is.Body.List {
+						switch y := a.(type) {
+						case *ast.BranchStmt:
+							acts = append(acts, y.Tok.String())
+						case *ast.AssignStmt:
+							acts = append(acts, exprText(y))
+						default:
+							acts = append(acts, "other")
+						}
+					}
+					minScope = append(minScope, "if:"+exprText(is.Cond)+"=>"+strings.Join(acts, ";"))
+				}
+			}
+		}
+	} else {
+		fail("FindMinScope not found")
+	}
+	b.WriteString("/-- FindMinScope: guard, loop and the `if`s of the loop body in source order -/\n")
+	b.WriteString("def findMinScopeShape : List String := " + leanStrList(minScope) + "\n\nend LuaHelper.Gen\n")
 	write("Shapes.lean", b.String())
 }
